@@ -75,7 +75,8 @@ def run(ctx: Ctx) -> None:
     # Unicode composition, surrounding space): equality of locations is equality of the component strings
     NEAR_URIS = ["file:///a", "file:///b", "", "file:///c:/a.py", "file:///c%3A/a.py", "file:///c%3a/a.py", "file:///C:/a.py", "FILE:///a", "file:///a/",
                  "file://localhost/a", "a b", "a%20b", "a+b", "%41", "A", "caf\u00e9", "cafe\u0301", "caf%C3%A9", " file:///a", "file:///a ", "file:///a#", "file:///a?",
-                 "file:///a/./b", "file:///a/b", "file:///a/../a/b", "%FF", "%FE"]
+                 "file:///a/./b", "file:///a/b", "file:///a/../a/b", "%FF", "%FE",
+                 "jdt://contents/" + "p" * 241, "jdt://contents/" + "p" * 242, "data:text/plain;base64," + "QUJD" * 2500, "u" * 4096]   # sizes
     uri = st.one_of(st.sampled_from(NEAR_URIS), st.sampled_from(NEAR_URIS), st.text(max_size=5))
     n = 2000 if ctx.quick else 50000
     common = dict(database=None, deadline=None, report_multiple_bugs=False, suppress_health_check=list(HealthCheck),
